@@ -95,6 +95,9 @@ def gen_case(seed, tier='quick'):
               'bufsize': rng.choice([16, 64, 512, 4096, 8192])}
         if not op['ignore'] and rng.random() < 0.5:
             op['explicit_ignore'] = True
+        if ops and rng.random() < 0.2:
+            # the ModelCompiler of the previous load is used again
+            op['reuse_compiler'] = True
         if ops and rng.random() < (1.0 if tier == 'thorough' else 0.3):
             # not the first load of this process: compare with a load of the
             # same bytes in a process that has never loaded anything
@@ -137,8 +140,8 @@ def direct_model(wb, ignore):
     from xlcalculator import ModelCompiler, xltypes
     mc = ModelCompiler()
     for sheet, d in xlsx.direct_contents(wb, ignore):
-        for a, v in d.items():
-            if isinstance(v, str) and v.startswith('='):
+        for a, (kind, v) in d.items():
+            if kind == 'f':
                 f = xltypes.XLFormula(v, sheet)
                 mc.model.cells[a] = xltypes.XLCell(a, None, formula=f)
                 mc.model.formulae[a] = f
@@ -301,6 +304,7 @@ def _run(case, fs):
     loaded = []         # (wb index, ignore, model, dump)
     first_dump = {}
     content = {}        # path index -> workbook whose bytes it holds now
+    last_mc = [None]
 
     for seq, op in enumerate(case['ops']):
         if viol is not None:
@@ -349,7 +353,12 @@ def _run(case, fs):
                     at = max(1, int(st.steps * fault['frac']))
         fs.reset_op(bufsize=op.get('bufsize'), read_fault=rf,
                     short_seed=short)
-        mc = ModelCompiler()
+        if op.get('reuse_compiler') and last_mc[0] is not None:
+            mc = last_mc[0]
+            bump('probe:compiler_object_reused')
+        else:
+            mc = ModelCompiler()
+        last_mc[0] = mc
         retried = False
         st = Stepper(interrupt_at=at, no_interrupt_in=CLEANUP)
         # an empty ignore list is passed implicitly (the API's default
